@@ -1628,3 +1628,68 @@ pub fn c14_conn(cx: &mut Ctx) -> VResult {
     check_replies(&out, &plan, out.world.read_pos, false, "c14")?;
     Ok(())
 }
+
+pub const C12H_PROBES: &[&str] = &["hostile_handler_invoked", "hostile_handler_got_invalid_data", "hostile_handler_got_unexpected_eof", "hostile_conn_closed_before_eof", "hostile_no_handler", "hostile_log_ends_in_cut_record"];
+
+/// C12, hostile traffic: the incoming stream is a compliant script passed through the structured mutation
+/// operators of C03 (or random bytes) and ends in end-of-file. Whatever the bytes are, the connection task
+/// terminates without panicking or spinning and what it wrote is a well-formed record sequence.
+pub fn c12_hostile(cx: &mut Ctx) -> VResult {
+    cx.declare(F_TRANSPORT, P_BASE);
+    cx.declare(crate::d1c03::C03_FAULTS, C12H_PROBES);
+    let o = PlanOpts { max_reqs: 3, noise: cx.ch.pick(3), closed_loop: false, abort: cx.ch.chance(1, 4), small_buf_bias: cx.ch.chance(1, 2), force_keep: false, either_noise: false };
+    let mut plan = gen_plan(cx, &o);
+    let wire = if cx.ch.chance(1, 8) {
+        cx.fault("mut_random_bytes");
+        let l = cx.ch.range(0, 300);
+        let mut w: Vec<u8> = (0..l).map(|_| cx.ch.byte()).collect();
+        if l >= 2 && cx.ch.chance(2, 3) { w[0] = 1; w[1] = cx.ch.range(0, 12) as u8; }
+        if cx.ch.chance(1, 2) { let mut v = plan.wire[..plan.reqs[0].info.end].to_vec(); v.extend(w); v } else { w }
+    } else {
+        let (recs, used) = wire::decode_all(&plan.wire);
+        assert!(used == plan.wire.len(), "harness: plan wire decodes completely");
+        crate::d1c03::mutate(cx, &recs)
+    };
+    // everything is sent without waiting for anything (the client is not compliant anyway), then the client closes
+    let mut cuts = vec![wire.len()];
+    for _ in 0..cx.ch.pick(3) { cuts.push(cx.ch.range(0, wire.len())); }
+    cuts.sort();
+    cuts.dedup();
+    plan.segs = cuts.into_iter().map(|c| Seg { end: c, gate: Gate::Open }).collect();
+    plan.wire = wire;
+    if cx.want_sample { cx.sample = Some(format!("bufsize={} hostile wire={}", plan.bufsize, hex(&plan.wire[..plan.wire.len().min(400)]))); }
+    cx.nontrivial = true;
+    let knobs = gen_knobs(cx, true, plan.wire.len());
+    let inner = take_cx(cx);
+    let hmode = if cx.ch.chance(1, 4) { HandlerMode::Readers } else { HandlerMode::Seq };
+    let mut out = run_conn(inner, &plan, knobs, &ConnOpts { mode: hmode, rfault: RFault::None, wfault: WFault::None, shutdown: None, strict_no_spurious: false });
+    give_back(cx, &mut out);
+    let w = &out.world;
+    if let Some(p) = &out.task_panicked { vfail!("c12_panic", "hostile_traffic", "connection task panicked: {p}"); }
+    for inv in &w.handler_log {
+        if let Some(v) = &inv.violation { if v.oracle == "panic" { return Err(v.clone()); } }
+        for (k, _, _) in &inv.errors {
+            if k == "InvalidData" { cx.probe("hostile_handler_got_invalid_data"); }
+            if k == "UnexpectedEof" { cx.probe("hostile_handler_got_unexpected_eof"); }
+        }
+    }
+    cx.probe(if w.handler_log.is_empty() { "hostile_no_handler" } else { "hostile_handler_invoked" });
+    vcheck!(out.end == "quiescent", "c12_spin", "hostile traffic: step cap reached, the connection task keeps running");
+    vcheck!(out.task_done, "c12_task_not_terminated", "hostile traffic: the client sent {} bytes and closed, {} were read, but the connection task is still pending (handler invocations {})", w.sent, w.read_pos, w.handler_log.len());
+    if !w.eof_reported { cx.probe("hostile_conn_closed_before_eof"); }
+    // everything written is a sequence of complete server-to-client records
+    // ("a prefix of a well-formed record sequence": a connection given up on bad input or on end-of-file inside a
+    // record may leave the reply it was writing unfinished, so one cut record at the very end is accepted)
+    if w.decoded_upto < w.log.len() {
+        let tail = &w.log[w.decoded_upto..];
+        cx.probe("hostile_log_ends_in_cut_record");
+        vcheck!(tail[0] == 1 && (tail.len() < 2 || matches!(tail[1], END | STDOUT | STDERR | GETVALUESRESULT | UNKNOWN)), "c12_log_wellformed", "hostile traffic: the cut record at the end of the log does not start like a server record: {}", hex(tail));
+    }
+    for r in &w.decoded {
+        vcheck!(r.version == 1 && matches!(r.rtype, END | STDOUT | STDERR | GETVALUESRESULT | UNKNOWN), "c12_log_wellformed", "hostile traffic: the server wrote a record it never sends: {}", r.short());
+    }
+    // each handler invocation is answered by at most one EndRequest with RequestComplete.. (ids may repeat): count only
+    let completes = w.decoded.iter().filter(|r| r.rtype == END && r.content.len() == 8 && r.content[4] == ST_COMPLETE && r.id != 0).count();
+    let _ = completes;
+    Ok(())
+}
